@@ -172,6 +172,66 @@ fn nth_word(model: &[&'static str], alpha: &[Sym], len: usize, mut idx: u64) -> 
     (model.to_vec(), syms)
 }
 
+/// Long parameter lists (9, 10 and 12 names): every position pair (i, j) of a duplicated name, in the model's list and in the
+/// list of one many-parameter function - plus the valid specification itself.
+fn long_lists(ctx: &Ctx, t: &mut Tally) {
+    for l in [9usize, 10, 12] {
+        let base: Vec<&'static str> = (0..l).map(|k| intern(&format!("q{}", k))).collect();
+        let mut pairs: Vec<Option<(usize, usize)>> = vec![None];
+        for i in 0..l {
+            for j in (i + 1)..l {
+                pairs.push(Some((i, j)));
+            }
+        }
+        for dup in pairs {
+            // (a) duplicate in the MODEL's list: single-parameter functions for every distinct name
+            {
+                let mut model = base.clone();
+                if let Some((i, j)) = dup {
+                    model[j] = model[i];
+                }
+                let mut syms = vec![];
+                let mut seen: Vec<&'static str> = vec![];
+                for n in &model {
+                    if !seen.contains(n) {
+                        seen.push(n);
+                        syms.push(Sym::Func { names: vec![*n], arity: 1 });
+                        syms.push(Sym::Pd { name: n, arity: 1 });
+                    }
+                }
+                syms.push(Sym::X);
+                syms.push(Sym::Init(l));
+                check_word(ctx, &(model, syms), t, "words");
+            }
+            // (b) duplicate in the list of ONE function of arity l over a model of l distinct names
+            {
+                let mut names = base.clone();
+                if let Some((i, j)) = dup {
+                    names[j] = names[i];
+                }
+                let mut syms = vec![Sym::Func { names: names.clone(), arity: l }];
+                let mut seen: Vec<&'static str> = vec![];
+                for n in &names {
+                    if !seen.contains(n) {
+                        seen.push(n);
+                        syms.push(Sym::Pd { name: n, arity: l });
+                    }
+                }
+                // the name that the duplicate displaced still needs a function of its own
+                for n in &base {
+                    if !names.contains(n) {
+                        syms.push(Sym::Func { names: vec![*n], arity: 1 });
+                        syms.push(Sym::Pd { name: n, arity: 1 });
+                    }
+                }
+                syms.push(Sym::X);
+                syms.push(Sym::Init(l));
+                check_word(ctx, &(base.clone(), syms), t, "words");
+            }
+        }
+    }
+}
+
 fn mode_words(ctx: &Arc<Ctx>) {
     let alpha = alphabet_small();
     let lmax: usize = ctx.args.extra.get("depth").map(|s| s.parse().unwrap()).unwrap_or(if ctx.args.thorough() { 5 } else { 4 });
@@ -179,6 +239,7 @@ fn mode_words(ctx: &Arc<Ctx>) {
     let mut global: u64 = 0;
     if ctx.args.shard == 0 {
         large_models(ctx);
+        long_lists(ctx, &mut t);
     }
     for (mi, model) in news().iter().enumerate() {
         for len in 0..=lmax {
